@@ -222,6 +222,77 @@ async def build_with_coercer(s, schema_name, oracle_ref, rec, coercer):
         tartiflette.create_engine = execgen_create
 
 
+SDL_DEFAULTS = """
+scalar Even
+type Item {
+  id: Int
+  label(
+    prefix: String,
+
+
+
+    code: Int = "seven",
+    even: Even = 7
+  ): String
+}
+type Query {
+  item: Item
+
+
+
+  top(n: Int = 1.5, flag: Boolean = 3, ids: [Int] = [1, "x"]): String
+}
+"""
+SDL_DEFAULT_REQUESTS = ["{ item { id label } }", "{ item { id label(prefix: \"y\") } }", "{ top }", "{ a: top item { l: label } }",
+                        "{ top(n: 1) }", "{ item { label(code: 1) } }", "{ item { label(code: 1, even: 2) } top(n: 1, flag: true, ids: []) }"]
+
+
+async def sdl_default_scenario():
+    """argument DEFAULTS of the schema that their type's literal rule rejects (the schema build does not check them), with the
+    argument omitted by the request (seed C18-h): whatever the engine reports, every location lies inside the REQUEST text --
+    the SDL's own lines and columns are not positions of the request"""
+    from tartiflette import create_engine, Resolver, Scalar
+    from tartiflette.constants import UNDEFINED_VALUE
+    name = fresh_schema_name("c18sdl")
+
+    @Scalar("Even", schema_name=name)
+    class Even:                                       # pylint: disable=unused-variable
+        def coerce_output(self, v):
+            return v
+
+        def coerce_input(self, v):
+            if isinstance(v, int) and v % 2 == 0:
+                return v
+            raise ValueError("odd")
+
+        def parse_literal(self, ast):
+            try:
+                v = int(ast.value)
+            except Exception:  # pylint: disable=broad-except
+                return UNDEFINED_VALUE
+            return v if v % 2 == 0 else UNDEFINED_VALUE
+
+    async def item(p, a, c, i):
+        return {"id": 1}
+
+    async def leaf(p, a, c, i):
+        return "v"
+    Resolver("Query.item", schema_name=name)(item)
+    Resolver("Query.top", schema_name=name)(leaf)
+    Resolver("Item.label", schema_name=name)(leaf)
+    engine = await create_engine(SDL_DEFAULTS, schema_name=name)
+    problems = []
+    for q in SDL_DEFAULT_REQUESTS:
+        try:
+            resp, raised = await engine.execute(q), None
+        except Exception as e:  # pylint: disable=broad-except
+            resp, raised = None, repr(e)
+        probs = envelope_problems(q, resp, raised, [], [], False)
+        if probs:
+            problems.append({"sdl": SDL_DEFAULTS, "query": q, "kind": probs, "response": repr(resp)[:1500], "raised": raised})
+    return problems, len(SDL_DEFAULT_REQUESTS)
+
+
 def parses_and_validates(resp):
     """heuristic split used only to decide whether the model comparison applies"""
     return True
@@ -331,7 +402,12 @@ def main(tier_, replay=None):
             continue
         for i in common.parse_Z_list(so, "impl_mismatch") or []:
             impl_mm.append((s, cases[i], runs[i]))
-    for s, c, r, probs in viol[:5]:
+    sdl_problems, sdl_n = asyncio.run(sdl_default_scenario())
+    total += sdl_n
+    for pr in sdl_problems[:3]:
+        rep.violation(dict(pr, property="C18"))
+        viol.append((None, {"query": pr["query"]}, {"response": pr["response"], "raised": pr["raised"]}, pr["kind"]))
+    for s, c, r, probs in [x for x in viol if x[0] is not None][:5]:
         rep.violation({"property": "C18", "kind": probs, "sdl": gen.schema_sdl(s), "query": repr(c["query"])[:2000],
                        "operation_name": c.get("opname"), "variables": repr(c.get("variables"))[:500],
                        "recording_coercer": c.get("recording_coercer", False),
